@@ -199,6 +199,10 @@ func floatExitOracle(o *Out, line string, text string, data string) {
 	}
 	d, ok := raw.(*decimal.Big)
 	f, ok2 := pub.(float64)
+	if ok && ok2 {
+		// the bit pattern handed back, against the proved conversion of the model's decimal result
+		o.Case(fmt.Sprintf("EF\t%s\t0\t-\t%s", hx([]byte(text)), data), fmt.Sprintf("F%016x", math.Float64bits(f)), true)
+	}
 	if ok && ok2 && d.IsInf(0) {
 		if !math.IsInf(f, 1) && !d.Signbit() || !math.IsInf(f, -1) && d.Signbit() {
 			o.Fail(line, fmt.Sprintf("an infinite decimal result %s was handed back as %v", d.String(), f))
